@@ -1561,6 +1561,10 @@ func (vc *VC) lookup(act *Act, st *State, i *ssa.Lookup) {
 	} else {
 		act.env[i] = val
 	}
+	// maplookup events see the value found and the presence flag
+	for _, ev := range vc.eng.eventsFor("maplookup", vc.mapWhat(i.X)) {
+		vc.applyEvent(act, st, st.clone(), ev, []Val{val, IntV{b2i(pres)}}, []types.Type{mt.Elem(), types.Typ[types.Bool]}, nil, nil, i)
+	}
 }
 
 func (vc *VC) mapUpdate(act *Act, st *State, i *ssa.MapUpdate) {
@@ -1603,6 +1607,10 @@ func (vc *VC) next(act *Act, st *State, i *ssa.Next) {
 	v, pres := vc.mapLoad(st, m, key, mt.Elem())
 	vc.assume(st, implies(eq(ok, "1"), pres))
 	act.env[i] = TupleV{[]Val{IntV{ok}, kv, v}}
+	// mapnext events: arg0 is 1 when an entry was delivered, 0 at the end of the iteration
+	for _, ev := range vc.eng.eventsFor("mapnext", vc.mapWhat(rng.X)) {
+		vc.applyEvent(act, st, st.clone(), ev, []Val{IntV{ok}, v}, []types.Type{types.Typ[types.Int], mt.Elem()}, nil, nil, i)
+	}
 }
 
 // fieldStoreHook: K3 immutable-field whitelist bookkeeping is done statically (sweep.go);
